@@ -64,6 +64,9 @@ func checkC18(c *Ctx) {
 	a.r4()
 	a.r5()
 	a.passBarrier()
+	c.Rule("C18.R7", "model evaluation of the sequential semantics on model documents (shared nodes, relations of ways, nodes and relations, a chain three deep, a cycle, a dangling reference) with the package's own KeepTags and KeepAll: Filter returns exactly the selected objects and what they reference, transitively, whichever way maps are walked, is idempotent, and Check accepts the result; the per-object functions driven through the pass protocol in file order, reverse order and an interleaved order reach the same least closed set")
+	c18model(c, "C18.R7")
+	c.Floor("C18.R7", 16)
 	c.Floor("C18.R6", 2)
 	c.Floor("C18.R1", 8)
 	c.Floor("C18.R2", 5)
@@ -1529,7 +1532,6 @@ func boolIdxOf(fn *types.Func) int {
 	}
 	return idx
 }
-
 
 // reachesProcess: f (a package function that is not itself a process function) calls one,
 // directly or through further helpers.
